@@ -97,7 +97,8 @@ impl<Req: VClone, Res, E, P: Fn(&E) -> bool, F: Fn(&Req) -> usize> Retry<Req, Re
         ensures
             1 <= final(tr).calls,   // #at_least_one_attempt [C05,C20]
             exists|n: usize| max_attempts_spec(old(self).config.max_attempts_source, req, n) && final(tr).calls <= cap(n),   // #at_most_max_attempts [C05]
-            final(tr).done == final(tr).calls && final(tr).last_done == Some(result),   // #returns_exactly_the_last_outcome [C05,C20]
+            final(tr).done == final(tr).calls && (final(tr).ready_err is None ==> final(tr).last_done == Some(result)),   // #returns_exactly_the_last_outcome [C05,C20]
+            final(tr).ready_err matches Some(e) ==> result == Err::<Res, E>(e),   // #a_readiness_error_between_attempts_ends_the_request_with_that_error [C20]
             forall|i: int| 0 <= i < final(tr).reqs.len() ==> final(tr).reqs[i] == req,   // #every_attempt_carries_the_request [C05,C20]
             result is Ok ==> final(tr).calls == final(tr).reqs.len(),   // #bookkeeping
             final(self).config == old(self).config,   // #frame
